@@ -340,7 +340,10 @@ def argument_vectors(mod):
                                                                   (None, None), ((1, 2), (1, 3)), ([1], [1]), (b"a", "a"), ({1}, {2}),
                                                                   # bytes that are not text in any particular encoding
                                                                   (b"\x89PNG", b"\xff\xd8\xff"), (b"\xff", b"a"), (bytearray(b"\x80"), b"\x80\x81"),
-                                                                  (b"\xc3", b"\xc3\xa9"), (b"", b"\xfe")]
+                                                                  (b"\xc3", b"\xc3\xa9"), (b"", b"\xfe"),
+                                                                  # floats closer than one machine epsilon, and denormals
+                                                                  (0.1 + 0.2, 0.3), (0.3, 0.1 + 0.2), (1.0, 1.0 + 2 ** -52), (5e-324, 0.0), (1e-300, -1e-300),
+                                                                  (1e16, 1e16 + 2.0)]
     vec = {}
     L = lambda *xs: [lambda xs=xs: xs]     # noqa: E731
     def many(items):
@@ -350,12 +353,12 @@ def argument_vectors(mod):
     vec["cmp_lt"] = many(pairs) + [lambda: (mod.OnlyLt(1), mod.OnlyLt(2)), lambda: (mod.OnlyLt(2), mod.OnlyLt(1)), lambda: (mod.Loud(1), mod.Loud(2))]
     vec["cmp_le"] = many(pairs) + [lambda: (mod.OnlyLt(1), mod.OnlyLt(2))]
     vec["cmp_gt_ge"] = many(pairs[:20]) + [lambda: (mod.OnlyLt(2), mod.OnlyLt(1))]
-    vec["contains"] = many([(1, [1, 2]), (3, [1, 2]), ("a", "abc"), ("z", "abc"), (1, {1: 2}), (nan, [nan]), (float("nan"), [float("nan")]), (1, 5),
+    vec["contains"] = many([(0.1 + 0.2, [0.3, 1.0]), (1e-300, [0.0]), (1, [1, 2]), (3, [1, 2]), ("a", "abc"), ("z", "abc"), (1, {1: 2}), (nan, [nan]), (float("nan"), [float("nan")]), (1, 5),
                             (None, (None,)), (2 ** 53 + 1, [float(2 ** 53)]), ("a", {"a", "b"}), ((1,), [(1,)])]) + [
         lambda: (2, OneShot([1, 2, 3])), lambda: (9, OneShot([1, 2, 3])), lambda: (mod.Loud(1), [mod.Loud(1)])]
     vec["identity"] = many([(None, None), (1, None), (None, 1), ((), ()), (nan, nan), ("a", "a")])
     vec["none_check"] = many([(None,), (0,), (1,), ("",), ([],), (nan,)]) + [lambda: (mod.Loud(0),)]
-    vec["truthy"] = many([(v,) for v in [0, 1, "", "a", [], [0], None, nan, 0.0, -0.0, D(0), F(0), 0j, 10 ** 400, (), {}, b"", D("sNaN"), D("NaN"), D("9e999999"), F(10 ** 400, 3)]]) + [
+    vec["truthy"] = many([(v,) for v in [0, 1, "", "a", [], [0], None, nan, 0.0, -0.0, D(0), F(0), 0j, 10 ** 400, (), {}, b"", D("sNaN"), D("NaN"), D("9e999999"), F(10 ** 400, 3), 5e-324, 1e-300, -1e-17, 2 ** -60]]) + [
         lambda: (mod.Loud(1),), lambda: (mod.Loud(0),), lambda: (mod.OnlyLt(1),)]
     vec["bool_ops"] = many([(a, b, c) for a in (0, 1) for b in (0, "x") for c in (None, [1])])
     vec["chained"] = many([(1, 2, 3), (3, 2, 1), (1, 3, 2), (1, nan, 2), (1, 1, 1), ("a", "b", "c"), (1, "a", 2)])
